@@ -415,3 +415,86 @@ func CorpusLockedAtRootBoundary(o *drv.Out, lrhu uint64) {
 		fmt.Sprintf("A after round 0: %s; first round with a live leader: +%d, committed after +%d rounds: %s", lockA, firstLive, rounds-1, c01.CommitsStr(s)))
 	r.End()
 }
+
+// syncUntilCommit runs lock-step synchronous rounds for `live` (candidate announcements dropped: every round is led by the
+// fallback leader) until an honest commit or `max` rounds; returns the rounds run, the index of the first round with a
+// live leader, and the honest commits.
+func syncUntilCommit(r *c01.Schedule, live []int, crashed int, max int) (rounds, firstLive, n int) {
+	s := r.Sim()
+	firstLive = -1
+	for ; n == 0 && rounds < max; rounds++ {
+		b0 := s.Nodes[live[0]].B
+		round := b0.Round
+		if l := s.FallbackLeader(b0.RootHeight, round); l != crashed && firstLive < 0 {
+			firstLive = rounds
+		}
+		for k := 0; k < 9 && honestCommits(s) == 0; k++ {
+			moved := false
+			for _, i := range live {
+				if b := s.Nodes[i].B; !c01.Committed(s, i) && !(b.Phase == bft.Election && b.Round > round) {
+					r.Phase(i)
+					moved = true
+				}
+			}
+			for _, e := range s.Take(func(e *bftsim.Envelope) bool { return e.Kind != "ELECTION" }) {
+				r.Deliver(e)
+			}
+			s.DropAll()
+			if !moved {
+				break
+			}
+		}
+		n = honestCommits(s)
+	}
+	return
+}
+
+// CorpusLockSurvivesCommitteeChange: validator 0 is down from the start. Round 0 at root height 10: replicas 1, 2, 3 certify
+// X (signers {1,2,3}), the PRECOMMIT reaches only replica 1, which locks; the round fails. The root chain advances: every
+// replica gets the NEW_COMMITTEE reset to root height 11 (locks kept), where the controller lists the same validators in
+// another order. From then on delivery is synchronous; the first round with a live leader must commit X: the leader
+// re-proposes it with the root-10 certificate as HighQc, and every replica has to verify that certificate against the
+// committee of root height 10 — the one whose list its signer bitmap refers to.
+func CorpusLockSurvivesCommitteeChange(o *drv.Out) {
+	const A = 1
+	cfg := corpusCfg(1)
+	cfg.CommitteeOrder = map[uint64][]int{11: {3, 2, 1, 0}}
+	probe := bftsim.New(cfg)
+	for ; ; cfg.Salt++ {
+		probe.SetSalt(cfg.Salt)
+		if probe.FallbackLeader(10, 0) != 0 {
+			break
+		}
+	}
+	r := c01.NewRun(o, "corpus/lock-survives-committee-change", cfg)
+	s := r.Sim()
+	live := []int{1, 2, 3}
+	step := func() {
+		for _, i := range live {
+			r.Phase(i)
+		}
+	}
+	deliver := func(f func(e *bftsim.Envelope) bool) {
+		for _, e := range s.Take(func(e *bftsim.Envelope) bool { return e.Kind != "ELECTION" && (f == nil || f(e)) }) {
+			r.Deliver(e)
+		}
+		s.DropAll()
+	}
+	for k := 0; k < 4; k++ { // ELECTION .. PROPOSE_VOTE of round 0
+		step()
+		deliver(nil)
+	}
+	step() // PRECOMMIT
+	deliver(func(e *bftsim.Envelope) bool { return e.To == A })
+	step() // PRECOMMIT_VOTE: A locks, the others interrupt
+	s.DropAll()
+	lockA := s.State(A)
+	for _, i := range live {
+		r.Reset(i, 11)
+	}
+	rounds, firstLive, n := syncUntilCommit(r, live, 0, 6)
+	verdict(o, r, "C15:no-commit-after-gst:lock-from-earlier-committee",
+		"a lock from root height 10 must be re-proposable at root height 11 where the committee is listed in another order", n > 0 && rounds-1 == firstLive,
+		fmt.Sprintf("A before the reset: %s; first round with a live leader: +%d, committed after +%d rounds: %s", lockA, firstLive, rounds-1, c01.CommitsStr(s)))
+	r.End()
+}
